@@ -1,7 +1,7 @@
 (** Lemmas about the multi-client model (Model/MultiClient.v): invariant of the
     reachable states, append-only version lists per lineage, refusal of stale
     commits, exactness of the known class [c14_recreated_lineage]. *)
-From Rocfl Require Import Base.Bytes Model.VersionNum Model.MultiClient Model.KnownC14
+From Rocfl Require Import Base.Bytes Model.VersionNum Model.MultiClient
   Proofs.BytesFacts Proofs.VersionNumFacts.
 From Coq Require Import ZArith Lia ZifyBool ZifyN ZifyNat.
 Ltac Zify.zify_post_hook ::= Z.div_mod_to_equations.
@@ -100,6 +100,44 @@ Lemma sget_purge_st st c id c' id' :
   sget (purge_st st c id) c' id' = if skey_eqb (c', id') (c, id) then None else sget st c' id'.
 Proof. unfold sget, purge_st. cbn [mc_stag]. apply aget_adel. exact skey_eqb_eq. Qed.
 
+(** membership of metadata tokens *)
+Lemma aget_In {K V} (eqb : K -> K -> bool) (Heq : forall a c, eqb a c = true <-> a = c) k (m : list (K * V)) v :
+  aget eqb k m = Some v -> In (k, v) m.
+Proof.
+  induction m as [|[k1 v1] r IH]; cbn [aget]; [discriminate|].
+  destruct (eqb k k1) eqn:E.
+  - intros [= ->]. apply Heq in E. subst. left. reflexivity.
+  - intros H. right. apply IH. exact H.
+Qed.
+
+Lemma st_metas_main st id o m :
+  mget st id = Some o -> In m (metas (o_versions o)) -> In m (st_metas st).
+Proof.
+  intros Hg Hin. unfold st_metas. apply in_or_app. left. apply in_flat_map.
+  exists (id, o). split; [apply (aget_In bytes_eqb bytes_eqb_eq); exact Hg|exact Hin].
+Qed.
+
+Lemma st_metas_stag st c id s m :
+  sget st c id = Some s -> In m (metas (s_versions s)) -> In m (st_metas st).
+Proof.
+  intros Hg Hin. unfold st_metas. apply in_or_app. right. apply in_flat_map.
+  exists ((c, id), s). split; [apply (aget_In skey_eqb skey_eqb_eq); exact Hg|exact Hin].
+Qed.
+
+Lemma step_fresh_commit st c id m : step_fresh st c (Commit id m) = true -> ~ In m (st_metas st).
+Proof.
+  cbn [step_fresh]. intros H Hin. apply negb_true_iff in H.
+  assert (Ht : existsb (N.eqb m) (st_metas st) = true).
+  { apply existsb_exists. exists m. split; [exact Hin|apply N.eqb_refl]. }
+  congruence.
+Qed.
+
+Lemma metas_snoc l x m : In m (metas (l ++ [x])) -> In m (metas l) \/ m = fst x.
+Proof.
+  unfold metas. rewrite map_app. intros H. apply in_app_or in H. destruct H as [H|H]; [left; exact H|].
+  cbn [map In] in H. destruct H as [H|[]]. right. symmetry. exact H.
+Qed.
+
 Local Opaque mget sget set_stag del_stag install purge_st.
 
 Ltac getsimp :=
@@ -110,34 +148,36 @@ Ltac getsimp :=
 (** * The operations as a relation (one constructor per successful branch) *)
 Inductive step_rel (dbg : bool) (st : mc) (c : N) : op -> mc -> res unit -> Prop :=
 | SR_fail o r : r <> Ok tt -> step_rel dbg st c o st r
-| SR_new id w :
+| SR_new id w k :
     mget st id = None -> sget st c id = None ->
-    step_rel dbg st c (New id w) (set_stag st c id (mkStg None (v1_stored w) [] [] [])) (Ok tt)
+    step_rel dbg st c (New id w k) (set_stag st c id (mkStg None (v1_stored w) [] [] [] k)) (Ok tt)
 | SR_stage_old id e s :
     sget st c id = Some s ->
     step_rel dbg st c (Stage id e)
-      (set_stag st c id (mkStg (s_base s) (s_head s) (s_versions s) (apply_edit e (s_state s)) (s_edits s ++ [e])))
+      (set_stag st c id (mkStg (s_base s) (s_head s) (s_versions s) (apply_edit e (s_state s)) (s_edits s ++ [e]) (s_cfg s)))
       (Ok tt)
 | SR_stage_clone id e o h :
     sget st c id = None -> mget st id = Some o -> vnext dbg (o_head o) = Ok h ->
     step_rel dbg st c (Stage id e)
-      (set_stag st c id (mkStg (Some (o_lineage o)) h (o_versions o) (apply_edit e (last_state (o_versions o))) [e]))
+      (set_stag st c id (mkStg (Some (o_lineage o)) h (o_versions o) (apply_edit e (last_state (o_versions o))) [e] (o_cfg o)))
       (Ok tt)
-| SR_commit_new id s :
+| SR_commit_new id m s :
     sget st c id = Some s -> vn_number (s_head s) = 1 -> mget st id = None ->
-    step_rel dbg st c (Commit id)
-      (install st c id (mkObj (mc_next st) (s_head s) (s_versions s ++ [s_state s])) (mc_next st + 1)) (Ok tt)
-| SR_commit_ver id s o p :
+    step_rel dbg st c (Commit id m)
+      (install st c id (mkObj (mc_next st) (s_head s) (s_versions s ++ [(m, s_state s)]) (s_cfg s)) (mc_next st + 1)) (Ok tt)
+| SR_commit_ver id m s o p :
     sget st c id = Some s -> vn_number (s_head s) <> 1 -> mget st id = Some o ->
     vprev dbg (s_head s) = Ok p -> vn_number (o_head o) = vn_number p ->
-    step_rel dbg st c (Commit id)
-      (install st c id (mkObj (o_lineage o) (s_head s) (s_versions s ++ [s_state s])) (mc_next st)) (Ok tt)
+    vn_width (o_head o) = vn_width (s_head s) -> o_cfg o = s_cfg s ->
+    base_same (o_versions o) (s_versions s ++ [(m, s_state s)]) = true ->
+    step_rel dbg st c (Commit id m)
+      (install st c id (mkObj (o_lineage o) (s_head s) (s_versions s ++ [(m, s_state s)]) (s_cfg s)) (mc_next st)) (Ok tt)
 | SR_reset id : step_rel dbg st c (ResetAll id) (del_stag st c id) (Ok tt)
 | SR_purge id : step_rel dbg st c (Purge id) (purge_st st c id) (Ok tt).
 
 Lemma step_sound dbg st c o : step_rel dbg st c o (fst (step dbg st c o)) (snd (step dbg st c o)).
 Proof.
-  destruct o as [id w|id e|id|id|id]; cbn [step].
+  destruct o as [id w k|id e|id m|id|id]; cbn [step].
   - destruct (mget st id) eqn:Em; cbn [fst snd]; [apply SR_fail; discriminate|].
     destruct (sget st c id) eqn:Es; cbn [fst snd]; [apply SR_fail; discriminate|].
     apply SR_new; assumption.
@@ -152,12 +192,17 @@ Proof.
     + destruct (mget st id) as [o|] eqn:Em; cbn [fst snd]; [|apply SR_fail; discriminate].
       destruct (vprev dbg (s_head s)) as [p| |] eqn:Ep; cbn [fst snd]; try (apply SR_fail; discriminate).
       destruct (vn_number (o_head o) =? vn_number p) eqn:E2; cbn [fst snd]; [|apply SR_fail; discriminate].
+      destruct ((vn_width (o_head o) =? vn_width (s_head s)) && (o_cfg o =? s_cfg s)) eqn:Ec; cbn [fst snd];
+        [|apply SR_fail; discriminate].
+      destruct (base_same (o_versions o) (s_versions s ++ [(m, s_state s)])) eqn:Eb; cbn [fst snd];
+        [|apply SR_fail; discriminate].
+      apply andb_true_iff in Ec. destruct Ec as [Ec1 Ec2].
       eapply SR_commit_ver; try eassumption; lia.
   - apply SR_reset.
   - apply SR_purge.
 Qed.
 
-(** * Invariant of the states reachable outside the known classes *)
+(** * Invariant of the states reachable when no commit repeats the metadata of a known version *)
 
 Definition obj_ok (next : N) (o : obj) : Prop :=
   o_lineage o < next /\ vnumok (o_head o) = true /\ vfits (o_head o) = true /\
@@ -175,12 +220,22 @@ Definition stg_ok (st : mc) (id : bytes) (s : staged) : Prop :=
         extends (s_versions s) (o_versions o) /\ vn_width (o_head o) = vn_width (s_head s)
   end.
 
+(** a metadata token occurs in one object of the main repository only ... *)
+Definition metas_main_unique (st : mc) : Prop :=
+  forall id1 id2 o1 o2 m, mget st id1 = Some o1 -> mget st id2 = Some o2 ->
+    In m (metas (o_versions o1)) -> In m (metas (o_versions o2)) -> id1 = id2.
+(** ... and a staged copy that shares one with an object was cloned from that very object *)
+Definition metas_stag_lineage (st : mc) : Prop :=
+  forall id o c id' s l m, mget st id = Some o -> sget st c id' = Some s -> s_base s = Some l ->
+    In m (metas (o_versions o)) -> In m (metas (s_versions s)) -> id' = id /\ l = o_lineage o.
+
 Definition mc_inv (st : mc) : Prop :=
   (forall id o, mget st id = Some o -> obj_ok (mc_next st) o) /\
-  (forall c id s, sget st c id = Some s -> stg_ok st id s).
+  (forall c id s, sget st c id = Some s -> stg_ok st id s) /\
+  metas_main_unique st /\ metas_stag_lineage st.
 
 Lemma mc_inv_init : mc_inv mc_init.
-Proof. split; intros; discriminate. Qed.
+Proof. repeat split; intros; discriminate. Qed.
 
 Lemma v1_stored_ok w :
   vnumok (v1_stored w) = true /\ vfits (v1_stored w) = true /\ vn_number (v1_stored w) = 1.
@@ -257,44 +312,67 @@ Proof. unfold stg_ok. intros H Hn Hm. rewrite Hn, Hm. exact H. Qed.
 Lemma obj_ok_mono n n' o : obj_ok n o -> n <= n' -> obj_ok n' o.
 Proof. unfold obj_ok. intros (H1 & H2) Hn. split; [lia|assumption]. Qed.
 
-(** What a successful, not-known commit of a new VERSION knows about its base:
-    the staged copy was cloned from exactly the object that is in the main
-    repository now. *)
-Lemma commit_ver_facts dbg st c id s o p :
+(** base versions that pass the comparison of fs.rs:446-459 come from the very object that
+    is in the main repository now *)
+Lemma base_same_lineage st c id s o x :
+  mc_inv st -> sget st c id = Some s -> mget st id = Some o -> vn_number (s_head s) <> 1 ->
+  base_same (o_versions o) (s_versions s ++ [x]) = true -> s_base s = Some (o_lineage o).
+Proof.
+  intros (Hmain & Hstag & HK & HJ) Es Em H1 Hbs.
+  destruct (Hstag _ _ _ Es) as (Swf & Sfit & Snum & Sstate & Sbase).
+  destruct (Hmain _ _ Em) as (Olin & Owf & Ofit & Onum).
+  destruct (s_base s) as [l|] eqn:Eb.
+  - destruct Sbase as (_ & Hne & _).
+    destruct (o_versions o) as [|x0 r0] eqn:Ev.
+    { cbn [List.length] in Onum. unfold vnumok in Owf. lia. }
+    destruct (s_versions s) as [|y0 r1] eqn:Esv; [congruence|].
+    cbn [app base_same] in Hbs. apply andb_true_iff in Hbs. destruct Hbs as [Hc _].
+    unfold cver_same in Hc. apply andb_true_iff in Hc. destruct Hc as [Hm _].
+    assert (Hmm : fst x0 = fst y0) by lia.
+    destruct (HJ id o c id s l (fst x0) Em Es Eb) as (_ & ->).
+    + rewrite Ev. cbn [metas map]. left. reflexivity.
+    + rewrite Esv. cbn [metas map]. left. symmetry. exact Hmm.
+    + reflexivity.
+  - rewrite Sbase in Snum. cbn [List.length] in Snum. lia.
+Qed.
+
+(** What a successful commit of a new VERSION knows about its base: the staged copy was
+    cloned from exactly the object that is in the main repository now. *)
+Lemma commit_ver_facts dbg st c id m s o p :
   mc_inv st -> sget st c id = Some s -> vn_number (s_head s) <> 1 -> mget st id = Some o ->
   vprev dbg (s_head s) = Ok p -> vn_number (o_head o) = vn_number p ->
-  c14_recreated_lineage st c id = false ->
+  base_same (o_versions o) (s_versions s ++ [(m, s_state s)]) = true ->
   s_base s = Some (o_lineage o) /\ s_versions s = o_versions o /\
   s_head s = mkV (vn_number (o_head o) + 1) (vn_width (o_head o)) /\
   s_state s = apply_edits (s_edits s) (last_state (o_versions o)).
 Proof.
-  intros [Hmain Hstag] Es Hn1 Em Ep Hnum Hk.
+  intros Hinv Es Hn1 Em Ep Hnum Hbs.
+  pose proof (base_same_lineage _ _ _ _ _ _ Hinv Es Em Hn1 Hbs) as Eb.
+  destruct Hinv as (Hmain & Hstag & _).
   destruct (Hstag _ _ _ Es) as (Swf & Sfit & Snum & Sstate & Sbase).
   destruct (Hmain _ _ Em) as (Olin & Owf & Ofit & Onum).
   rewrite vprev_correct in Ep by assumption.
   assert (Hn1' : (vn_number (s_head s) =? 1) = false) by lia. rewrite Hn1' in Ep.
   injection Ep as <-. cbn [vn_number] in Hnum.
   assert (Hge : 1 <= vn_number (s_head s)) by (unfold vnumok in Swf; lia).
-  unfold c14_recreated_lineage in Hk. rewrite Es, Em, Hn1' in Hk. cbn [negb andb] in Hk.
-  replace (vn_number (o_head o) + 1 =? vn_number (s_head s)) with true in Hk by lia.
-  rewrite andb_true_r in Hk.
-  destruct (s_base s) as [l|] eqn:Eb; [|discriminate].
-  assert (l = o_lineage o) by lia. subst l.
+  rewrite Eb in Sbase.
   destruct Sbase as (_ & _ & Hb). destruct (Hb _ Em eq_refl) as (Hext & Hw).
   assert (Hv : o_versions o = s_versions s) by (apply extends_same_length; [assumption|lia]).
   repeat split.
+  - exact Eb.
   - symmetry. exact Hv.
   - destruct (s_head s) as [n w]. cbn [vn_number vn_width] in *. f_equal; lia.
   - rewrite Hv. exact Sstate.
 Qed.
 
-Lemma step_rel_inv dbg st c o st' r :
-  mc_inv st -> step_clean st c o = true -> step_rel dbg st c o st' r -> mc_inv st'.
+Lemma step_rel_inv12 dbg st c o st' r :
+  mc_inv st -> step_rel dbg st c o st' r ->
+  (forall id o, mget st' id = Some o -> obj_ok (mc_next st') o) /\
+  (forall c id s, sget st' c id = Some s -> stg_ok st' id s).
 Proof.
-  intros Hinv Hclean Hstep. pose proof Hinv as [Hmain Hstag].
-  pose proof Hclean as Hkn. unfold step_clean in Hkn. apply negb_true_iff in Hkn.
-  destruct Hstep as [o r Hr|id w Em Es|id e s Es|id e ob h Es Em En|id s Es H1 Em|id s ob p Es H1 Em Ep Hnum|id|id].
-  - exact Hinv.
+  intros Hinv Hstep. pose proof Hinv as (Hmain & Hstag & _).
+  destruct Hstep as [o r Hr|id w k Em Es|id e s Es|id e ob h Es Em En|id m s Es H1 Em|id m s ob p Es H1 Em Ep Hnum Hw Hcfg Hbs|id|id].
+  - split; assumption.
   - (* New *)
     split.
     + intros id' o' Hg. getsimp. eapply Hmain; exact Hg.
@@ -347,8 +425,7 @@ Proof.
       * injection Hg' as <-. cbn [o_lineage] in Hl. lia.
       * apply Bf; assumption.
   - (* Commit, new version *)
-    cbn [step_known] in Hkn.
-    destruct (commit_ver_facts _ _ _ _ _ _ _ Hinv Es H1 Em Ep Hnum Hkn) as (Fb & Fv & Fh & Fs).
+    destruct (commit_ver_facts _ _ _ _ _ _ _ _ Hinv Es H1 Em Ep Hnum Hbs) as (Fb & Fv & Fh & Fs).
     destruct (Hstag _ _ _ Es) as (Swf & Sfit & Snum & Sstate & Sbase).
     destruct (Hmain _ _ Em) as (Olin & Owf & Ofit & Onum).
     split.
@@ -390,14 +467,108 @@ Proof.
       apply Bf; assumption.
 Qed.
 
+Lemma stg_new_no_versions st id s : stg_ok st id s -> vn_number (s_head s) = 1 -> s_versions s = [].
+Proof.
+  intros (_ & _ & Snum & _) H1. destruct (s_versions s); [reflexivity|]. cbn [List.length] in Snum. lia.
+Qed.
+
+Lemma step_rel_invK dbg st c o st' r :
+  mc_inv st -> step_fresh st c o = true -> step_rel dbg st c o st' r -> metas_main_unique st'.
+Proof.
+  intros Hinv Hfresh Hstep. pose proof Hinv as (Hmain & Hstag & HK & HJ).
+  destruct Hstep as [o r Hr|id w k Em Es|id e s Es|id e ob h Es Em En|id m s Es H1 Em|id m s ob p Es H1 Em Ep Hnum Hw Hcfg Hbs|id|id];
+    intros id1 id2 o1 o2 m0 G1 G2 I1 I2; getsimp.
+  1-4,7: eapply HK; eassumption.
+  - (* Commit, new object *)
+    pose proof (step_fresh_commit _ _ _ _ Hfresh) as Hf.
+    pose proof (stg_new_no_versions _ _ _ (Hstag _ _ _ Es) H1) as Hnil.
+    destruct (bytes_case id id1) as [(E1 & ->)|(E1 & N1)]; rewrite E1 in G1;
+      destruct (bytes_case id id2) as [(E2 & ->)|(E2 & N2)]; rewrite E2 in G2; try reflexivity.
+    + injection G1 as <-. cbn [o_versions] in I1. rewrite Hnil in I1. cbn [app metas map In] in I1.
+      destruct I1 as [<-|[]]. exfalso. apply Hf. eapply st_metas_main; eassumption.
+    + injection G2 as <-. cbn [o_versions] in I2. rewrite Hnil in I2. cbn [app metas map In] in I2.
+      destruct I2 as [<-|[]]. exfalso. apply Hf. eapply st_metas_main; eassumption.
+    + eapply HK; eassumption.
+  - (* Commit, new version *)
+    pose proof (step_fresh_commit _ _ _ _ Hfresh) as Hf.
+    destruct (commit_ver_facts _ _ _ _ _ _ _ _ Hinv Es H1 Em Ep Hnum Hbs) as (Fb & Fv & Fh & Fs).
+    destruct (bytes_case id id1) as [(E1 & ->)|(E1 & N1)]; rewrite E1 in G1;
+      destruct (bytes_case id id2) as [(E2 & ->)|(E2 & N2)]; rewrite E2 in G2; try reflexivity.
+    + injection G1 as <-. cbn [o_versions] in I1. rewrite Fv in I1.
+      destruct (metas_snoc _ _ _ I1) as [I1' | ->].
+      * eapply HK; [exact Em|exact G2|exact I1'|exact I2].
+      * exfalso. apply Hf. cbn [fst]. eapply st_metas_main; eassumption.
+    + injection G2 as <-. cbn [o_versions] in I2. rewrite Fv in I2.
+      destruct (metas_snoc _ _ _ I2) as [I2' | ->].
+      * eapply HK; [exact G1|exact Em|exact I1|exact I2'].
+      * exfalso. apply Hf. cbn [fst]. eapply st_metas_main; eassumption.
+    + eapply HK; eassumption.
+  - (* Purge *)
+    destruct (bytes_case id id1) as [(E1 & ->)|(E1 & N1)]; rewrite E1 in G1; [discriminate|].
+    destruct (bytes_case id id2) as [(E2 & ->)|(E2 & N2)]; rewrite E2 in G2; [discriminate|].
+    eapply HK; eassumption.
+Qed.
+
+Lemma step_rel_invJ dbg st c o st' r :
+  mc_inv st -> step_fresh st c o = true -> step_rel dbg st c o st' r -> metas_stag_lineage st'.
+Proof.
+  intros Hinv Hfresh Hstep. pose proof Hinv as (Hmain & Hstag & HK & HJ).
+  destruct Hstep as [o r Hr|id w k Em Es|id e s Es|id e ob h Es Em En|id m s Es H1 Em|id m s ob p Es H1 Em Ep Hnum Hw Hcfg Hbs|id|id];
+    intros id0 o0 c0 id0' s0 l m0 G S B I1 I2; getsimp.
+  - eapply HJ; eassumption.
+  - destruct (skey_case c id c0 id0') as [(E & -> & ->)|(E & Hne)]; rewrite E in S.
+    + injection S as <-. discriminate B.
+    + eapply HJ; eassumption.
+  - destruct (skey_case c id c0 id0') as [(E & -> & ->)|(E & Hne)]; rewrite E in S.
+    + injection S as <-. cbn [s_base s_versions] in *. eapply HJ; eassumption.
+    + eapply HJ; eassumption.
+  - destruct (skey_case c id c0 id0') as [(E & -> & ->)|(E & Hne)]; rewrite E in S.
+    + injection S as <-. cbn [s_base s_versions] in *. injection B as <-.
+      assert (id0 = id) by (eapply HK; [exact G|exact Em|exact I1|exact I2]). subst id0.
+      rewrite Em in G. injection G as <-. split; reflexivity.
+    + eapply HJ; eassumption.
+  - (* Commit, new object *)
+    pose proof (step_fresh_commit _ _ _ _ Hfresh) as Hf.
+    pose proof (stg_new_no_versions _ _ _ (Hstag _ _ _ Es) H1) as Hnil.
+    destruct (skey_case c id c0 id0') as [(E & -> & ->)|(E & Hne)]; rewrite E in S; [discriminate|].
+    destruct (bytes_case id id0) as [(E1 & ->)|(E1 & N1)]; rewrite E1 in G.
+    + injection G as <-. cbn [o_versions] in I1. rewrite Hnil in I1. cbn [app metas map In] in I1.
+      destruct I1 as [<-|[]]. exfalso. apply Hf. eapply st_metas_stag; eassumption.
+    + eapply HJ; eassumption.
+  - (* Commit, new version *)
+    pose proof (step_fresh_commit _ _ _ _ Hfresh) as Hf.
+    destruct (commit_ver_facts _ _ _ _ _ _ _ _ Hinv Es H1 Em Ep Hnum Hbs) as (Fb & Fv & Fh & Fs).
+    destruct (skey_case c id c0 id0') as [(E & -> & ->)|(E & Hne)]; rewrite E in S; [discriminate|].
+    destruct (bytes_case id id0) as [(E1 & ->)|(E1 & N1)]; rewrite E1 in G.
+    + injection G as <-. cbn [o_versions o_lineage] in *. rewrite Fv in I1.
+      destruct (metas_snoc _ _ _ I1) as [I1' | ->].
+      * eapply HJ; [exact Em|exact S|exact B|exact I1'|exact I2].
+      * exfalso. apply Hf. cbn [fst]. eapply st_metas_stag; eassumption.
+    + eapply HJ; eassumption.
+  - destruct (skey_case c id c0 id0') as [(E & -> & ->)|(E & Hne)]; rewrite E in S; [discriminate|].
+    eapply HJ; eassumption.
+  - destruct (skey_case c id c0 id0') as [(E & -> & ->)|(E & Hne)]; rewrite E in S; [discriminate|].
+    destruct (bytes_case id id0) as [(E1 & ->)|(E1 & N1)]; rewrite E1 in G; [discriminate|].
+    eapply HJ; eassumption.
+Qed.
+
+Lemma step_rel_inv dbg st c o st' r :
+  mc_inv st -> step_fresh st c o = true -> step_rel dbg st c o st' r -> mc_inv st'.
+Proof.
+  intros Hinv Hf Hstep. destruct (step_rel_inv12 _ _ _ _ _ _ Hinv Hstep) as [H1 H2].
+  split; [exact H1|]. split; [exact H2|]. split.
+  - eapply step_rel_invK; eassumption.
+  - eapply step_rel_invJ; eassumption.
+Qed.
+
 Lemma step_inv dbg st c o :
-  mc_inv st -> step_clean st c o = true -> mc_inv (fst (step dbg st c o)).
+  mc_inv st -> step_fresh st c o = true -> mc_inv (fst (step dbg st c o)).
 Proof. intros Hinv Hc. eapply step_rel_inv; [exact Hinv|exact Hc|apply step_sound]. Qed.
 
 Lemma run_inv dbg es : forall st,
-  mc_inv st -> run_clean dbg st es = true -> mc_inv (run dbg st es).
+  mc_inv st -> run_fresh dbg st es = true -> mc_inv (run dbg st es).
 Proof.
-  induction es as [|[c o] r IH]; intros st Hinv Hc; cbn [run run_clean] in *.
+  induction es as [|[c o] r IH]; intros st Hinv Hc; cbn [run run_fresh] in *.
   - exact Hinv.
   - apply andb_true_iff in Hc. destruct Hc as [Hc1 Hc2].
     apply IH; [apply step_inv; assumption|exact Hc2].
@@ -424,14 +595,13 @@ Proof.
 Qed.
 
 Lemma step_rel_back dbg st c o st' r :
-  mc_inv st -> step_clean st c o = true -> step_rel dbg st c o st' r ->
+  mc_inv st -> step_rel dbg st c o st' r ->
   mc_next st <= mc_next st' /\
   forall id o1, mget st' id = Some o1 ->
     (exists o0, mget st id = Some o0 /\ grows_from o0 o1) \/ mc_next st <= o_lineage o1.
 Proof.
-  intros Hinv Hclean Hstep.
-  pose proof Hclean as Hkn. unfold step_clean in Hkn. apply negb_true_iff in Hkn.
-  destruct Hstep as [o r Hr|id w Em Es|id e s Es|id e ob h Es Em En|id s Es H1 Em|id s ob p Es H1 Em Ep Hnum|id|id];
+  intros Hinv Hstep.
+  destruct Hstep as [o r Hr|id w k Em Es|id e s Es|id e ob h Es Em En|id m s Es H1 Em|id m s ob p Es H1 Em Ep Hnum Hw Hcfg Hbs|id|id];
     getsimp.
   1-4,7: split; [lia|]; intros id' o1 Hg; getsimp; left; exists o1; split; [exact Hg|apply grows_from_refl].
   - split; [lia|]. intros id' o1 Hg. getsimp.
@@ -439,11 +609,10 @@ Proof.
     + injection Hg as <-. right. cbn [o_lineage]. lia.
     + left. exists o1. split; [exact Hg|apply grows_from_refl].
   - split; [lia|]. intros id' o1 Hg. getsimp.
-    cbn [step_known] in Hkn.
-    destruct (commit_ver_facts _ _ _ _ _ _ _ Hinv Es H1 Em Ep Hnum Hkn) as (Fb & Fv & Fh & Fs).
+    destruct (commit_ver_facts _ _ _ _ _ _ _ _ Hinv Es H1 Em Ep Hnum Hbs) as (Fb & Fv & Fh & Fs).
     destruct (bytes_case id id') as [(E & ->)|(E & Hne)]; rewrite E in Hg.
     + injection Hg as <-. left. exists ob. split; [exact Em|].
-      split; [reflexivity|]. exists [s_state s]. cbn [o_versions o_head List.length].
+      split; [reflexivity|]. exists [(m, s_state s)]. cbn [o_versions o_head List.length].
       rewrite Fv, Fh. cbn [vn_number vn_width]. repeat split; lia.
     + left. exists o1. split; [exact Hg|apply grows_from_refl].
   - split; [lia|]. intros id' o1 Hg. getsimp.
@@ -459,16 +628,16 @@ Definition extends_obj (o o1 : obj) : Prop :=
              vn_width (o_head o1) = vn_width (o_head o).
 
 Lemma run_back dbg es : forall st,
-  mc_inv st -> run_clean dbg st es = true ->
+  mc_inv st -> run_fresh dbg st es = true ->
   mc_next st <= mc_next (run dbg st es) /\
   forall id o1, mget (run dbg st es) id = Some o1 ->
     (exists o0, mget st id = Some o0 /\ extends_obj o0 o1) \/ mc_next st <= o_lineage o1.
 Proof.
-  induction es as [|[c o] r IH]; intros st Hinv Hc; cbn [run run_clean] in *.
+  induction es as [|[c o] r IH]; intros st Hinv Hc; cbn [run run_fresh] in *.
   - split; [lia|]. intros id o1 Hg. left. exists o1. split; [exact Hg|].
     split; [reflexivity|]. exists []. rewrite app_nil_r. cbn [List.length]. split; [reflexivity|split; lia].
   - apply andb_true_iff in Hc. destruct Hc as [Hc1 Hc2].
-    destruct (step_rel_back dbg st c o _ _ Hinv Hc1 (step_sound dbg st c o)) as [Hn1 Hb1].
+    destruct (step_rel_back dbg st c o _ _ Hinv (step_sound dbg st c o)) as [Hn1 Hb1].
     destruct (IH _ (step_inv dbg st c o Hinv Hc1) Hc2) as [Hn2 Hb2].
     split; [lia|]. intros id o2 Hg.
     destruct (Hb2 _ _ Hg) as [(o1 & Hg1 & Hl & tl2 & Hv2 & Hnum2 & Hw2)|Hfresh]; [|right; lia].
@@ -477,76 +646,227 @@ Proof.
     exists (tl1 ++ tl2). rewrite Hv2, Hv1, <- app_assoc, app_length. repeat split; [lia|congruence].
 Qed.
 
+(** * What holds in EVERY reachable state, whatever metadata the clients pass *)
+
+Definition obj_wf (next : N) (o : obj) : Prop :=
+  o_lineage o < next /\ vnumok (o_head o) = true /\ vfits (o_head o) = true /\
+  vn_number (o_head o) = N.of_nat (List.length (o_versions o)).
+Definition stg_wf (s : staged) : Prop :=
+  vnumok (s_head s) = true /\ vfits (s_head s) = true /\
+  vn_number (s_head s) = N.of_nat (List.length (s_versions s)) + 1 /\
+  s_state s = apply_edits (s_edits s) (last_state (s_versions s)).
+Definition mc_wf (st : mc) : Prop :=
+  (forall id o, mget st id = Some o -> obj_wf (mc_next st) o) /\
+  (forall c id s, sget st c id = Some s -> stg_wf s).
+
+Lemma mc_wf_init : mc_wf mc_init.
+Proof. split; intros; discriminate. Qed.
+
+Lemma mc_inv_wf st : mc_inv st -> mc_wf st.
+Proof.
+  intros (Hmain & Hstag & _). split.
+  - intros id o Hg. exact (Hmain _ _ Hg).
+  - intros c id s Hg. destruct (Hstag _ _ _ Hg) as (A1 & A2 & A3 & A4 & _). repeat split; assumption.
+Qed.
+
+Lemma obj_wf_mono n n' o : obj_wf n o -> n <= n' -> obj_wf n' o.
+Proof. unfold obj_wf. intros (H1 & H2) Hn. split; [lia|assumption]. Qed.
+
+Lemma step_rel_wf dbg st c o st' r : mc_wf st -> step_rel dbg st c o st' r -> mc_wf st'.
+Proof.
+  intros [Hmain Hstag] Hstep.
+  destruct Hstep as [o r Hr|id w k Em Es|id e s Es|id e ob h Es Em En|id m s Es H1 Em|id m s ob p Es H1 Em Ep Hnum Hw Hcfg Hbs|id|id].
+  - split; assumption.
+  - split.
+    + intros id' o' Hg. getsimp. eapply Hmain; exact Hg.
+    + intros c' id' s' Hg. getsimp.
+      destruct (skey_case c id c' id') as [(E & -> & ->)|(E & Hne)]; rewrite E in Hg.
+      * injection Hg as <-. destruct (v1_stored_ok w) as (A1 & A2 & A4).
+        unfold stg_wf. cbn [s_head s_versions s_state s_edits List.length].
+        split; [exact A1|]. split; [exact A2|]. split; [lia|reflexivity].
+      * eapply Hstag; exact Hg.
+  - split.
+    + intros id' o' Hg. getsimp. eapply Hmain; exact Hg.
+    + intros c' id' s' Hg. getsimp.
+      destruct (skey_case c id c' id') as [(E & -> & ->)|(E & Hne)]; rewrite E in Hg.
+      * injection Hg as <-. destruct (Hstag _ _ _ Es) as (A1 & A2 & A4 & A5).
+        unfold stg_wf. cbn [s_head s_versions s_state s_edits].
+        split; [exact A1|]. split; [exact A2|]. split; [exact A4|].
+        rewrite apply_edits_snoc, <- A5. reflexivity.
+      * eapply Hstag; exact Hg.
+  - destruct (Hmain _ _ Em) as (Olin & Owf & Ofit & Onum).
+    destruct (vnext_ok_plus_one _ _ _ Owf En) as (Nn & Nw & Nfit & Nwf).
+    split.
+    + intros id' o' Hg. getsimp. eapply Hmain; exact Hg.
+    + intros c' id' s' Hg. getsimp.
+      destruct (skey_case c id c' id') as [(E & -> & ->)|(E & Hne)]; rewrite E in Hg.
+      * injection Hg as <-. unfold stg_wf. cbn [s_head s_versions s_state s_edits].
+        split; [exact Nwf|]. split; [exact Nfit|]. split; [lia|reflexivity].
+      * eapply Hstag; exact Hg.
+  - destruct (Hstag _ _ _ Es) as (Swf & Sfit & Snum & Sstate).
+    split.
+    + intros id' o' Hg. getsimp.
+      destruct (bytes_case id id') as [(E & ->)|(E & Hne)]; rewrite E in Hg.
+      * injection Hg as <-. unfold obj_wf. cbn [o_lineage o_head o_versions].
+        rewrite app_length. cbn [List.length]. repeat split; try assumption; lia.
+      * apply obj_wf_mono with (n := mc_next st); [eapply Hmain; exact Hg|lia].
+    + intros c' id' s' Hg. getsimp.
+      destruct (skey_case c id c' id') as [(E & -> & ->)|(E & Hne)]; rewrite E in Hg; [discriminate|].
+      eapply Hstag; exact Hg.
+  - destruct (Hstag _ _ _ Es) as (Swf & Sfit & Snum & Sstate).
+    destruct (Hmain _ _ Em) as (Olin & _).
+    split.
+    + intros id' o' Hg. getsimp.
+      destruct (bytes_case id id') as [(E & ->)|(E & Hne)]; rewrite E in Hg.
+      * injection Hg as <-. unfold obj_wf. cbn [o_lineage o_head o_versions].
+        rewrite app_length. cbn [List.length]. repeat split; try assumption; lia.
+      * eapply Hmain; exact Hg.
+    + intros c' id' s' Hg. getsimp.
+      destruct (skey_case c id c' id') as [(E & -> & ->)|(E & Hne)]; rewrite E in Hg; [discriminate|].
+      eapply Hstag; exact Hg.
+  - split.
+    + intros id' o' Hg. getsimp. eapply Hmain; exact Hg.
+    + intros c' id' s' Hg. getsimp.
+      destruct (skey_case c id c' id') as [(E & -> & ->)|(E & Hne)]; rewrite E in Hg; [discriminate|].
+      eapply Hstag; exact Hg.
+  - split.
+    + intros id' o' Hg. getsimp.
+      destruct (bytes_case id id') as [(E & ->)|(E & Hne)]; rewrite E in Hg; [discriminate|].
+      eapply Hmain; exact Hg.
+    + intros c' id' s' Hg. getsimp.
+      destruct (skey_case c id c' id') as [(E & -> & ->)|(E & Hne)]; rewrite E in Hg; [discriminate|].
+      eapply Hstag; exact Hg.
+Qed.
+
+Lemma run_wf dbg es : forall st, mc_wf st -> mc_wf (run dbg st es).
+Proof.
+  induction es as [|[c o] r IH]; intros st Hwf; cbn [run]; [exact Hwf|].
+  apply IH. eapply step_rel_wf; [exact Hwf|apply step_sound].
+Qed.
+
 (** * The statements of the property *)
 
-(** reachable states (no known class on the way) satisfy the invariant: every
-    object's head number is the number of its versions, fits its padding width ... *)
-Lemma reachable_inv dbg es : run_clean dbg mc_init es = true -> mc_inv (run dbg mc_init es).
-Proof. apply run_inv. apply mc_inv_init. Qed.
+(** ALL interleavings, any metadata: every object's head number is the number of its versions
+    (none skipped, none repeated) and fits its padding width *)
+Lemma reachable_wf dbg es : mc_wf (run dbg mc_init es).
+Proof. apply run_wf. apply mc_wf_init. Qed.
 
 Lemma reachable_heads dbg es id o :
-  run_clean dbg mc_init es = true -> mget (run dbg mc_init es) id = Some o ->
+  mget (run dbg mc_init es) id = Some o ->
   vn_number (o_head o) = N.of_nat (List.length (o_versions o)) /\ 1 <= vn_number (o_head o) /\
   vfits (o_head o) = true.
 Proof.
-  intros Hc Hg. destruct (reachable_inv dbg es Hc) as [Hmain _].
+  intros Hg. destruct (reachable_wf dbg es) as [Hmain _].
   destruct (Hmain _ _ Hg) as (_ & Hwf & Hfit & Hnum). unfold vnumok in Hwf. repeat split; try assumption; lia.
 Qed.
 
-Lemma commit_ver_unfold dbg st c id s st' :
-  sget st c id = Some s -> vn_number (s_head s) <> 1 -> step dbg st c (Commit id) = (st', Ok tt) ->
+(** interleavings in which no commit repeats the metadata of a known version (what Local::now()
+    gives) satisfy the stronger, lineage-aware invariant *)
+Lemma reachable_inv dbg es : run_fresh dbg mc_init es = true -> mc_inv (run dbg mc_init es).
+Proof. apply run_inv. apply mc_inv_init. Qed.
+
+Lemma commit_ver_unfold dbg st c id m s st' :
+  sget st c id = Some s -> vn_number (s_head s) <> 1 -> step dbg st c (Commit id m) = (st', Ok tt) ->
   exists o p, mget st id = Some o /\ vprev dbg (s_head s) = Ok p /\ vn_number (o_head o) = vn_number p /\
-    st' = install st c id (mkObj (o_lineage o) (s_head s) (s_versions s ++ [s_state s])) (mc_next st).
+    vn_width (o_head o) = vn_width (s_head s) /\ o_cfg o = s_cfg s /\
+    base_same (o_versions o) (s_versions s ++ [(m, s_state s)]) = true /\
+    st' = install st c id (mkObj (o_lineage o) (s_head s) (s_versions s ++ [(m, s_state s)]) (s_cfg s)) (mc_next st).
 Proof.
   intros Es H1 Hstep. cbn [step] in Hstep. rewrite Es in Hstep.
   assert (E1 : (vn_number (s_head s) =? 1) = false) by lia. rewrite E1 in Hstep.
   destruct (mget st id) as [o|] eqn:Em; [|discriminate].
   destruct (vprev dbg (s_head s)) as [p| |] eqn:Ep; try discriminate.
   destruct (vn_number (o_head o) =? vn_number p) eqn:E2; [|discriminate].
-  injection Hstep as <-. exists o, p. repeat split; try reflexivity. lia.
+  destruct ((vn_width (o_head o) =? vn_width (s_head s)) && (o_cfg o =? s_cfg s)) eqn:Ec; [|discriminate].
+  destruct (base_same (o_versions o) (s_versions s ++ [(m, s_state s)])) eqn:Eb; [|discriminate].
+  apply andb_true_iff in Ec. destruct Ec as [Ec1 Ec2].
+  injection Hstep as <-. exists o, p. repeat split; try reflexivity; try assumption; lia.
 Qed.
 
-Lemma commit_appends_exactly_next dbg st c id s st' :
-  mc_inv st -> sget st c id = Some s -> vn_number (s_head s) <> 1 ->
-  c14_recreated_lineage st c id = false ->
-  step dbg st c (Commit id) = (st', Ok tt) ->
+Lemma base_same_app_l main stg x :
+  List.length main = List.length stg -> base_same main (stg ++ [x]) = base_same main stg.
+Proof.
+  revert stg. induction main as [|a r IH]; intros [|y s'] Hl; cbn [List.length] in Hl; try lia; [reflexivity|].
+  cbn [app base_same]. rewrite IH by lia. reflexivity.
+Qed.
+
+(** ANY accepted commit of a new version (no hypothesis on metadata): the new head is the old
+    head number + 1, exactly one version - the client's staged state with the commit's
+    metadata - is added at the end, and each earlier version keeps its metadata and its state
+    ([base_same]): none is overwritten by a different one, skipped or merged *)
+Lemma commit_keeps_history dbg st c id m s st' :
+  mc_wf st -> sget st c id = Some s -> vn_number (s_head s) <> 1 ->
+  step dbg st c (Commit id m) = (st', Ok tt) ->
   exists o, mget st id = Some o /\
     mget st' id = Some (mkObj (o_lineage o) (mkV (vn_number (o_head o) + 1) (vn_width (o_head o)))
-                              (o_versions o ++ [s_state s])) /\
+                              (s_versions s ++ [(m, s_state s)]) (o_cfg o)) /\
+    List.length (s_versions s) = List.length (o_versions o) /\
+    base_same (o_versions o) (s_versions s) = true /\
     (forall id', id' <> id -> mget st' id' = mget st id') /\
     sget st' c id = None /\
     (forall c' id', (c', id') <> (c, id) -> sget st' c' id' = sget st c' id') /\
     mc_next st' = mc_next st.
 Proof.
-  intros Hinv Es H1 Hk Hstep.
-  destruct (commit_ver_unfold _ _ _ _ _ _ Es H1 Hstep) as (o & p & Em & Ep & Hnum & ->).
-  destruct (commit_ver_facts _ _ _ _ _ _ _ Hinv Es H1 Em Ep Hnum Hk) as (Fb & Fv & Fh & Fs).
+  intros [Hmain Hstag] Es H1 Hstep.
+  destruct (commit_ver_unfold _ _ _ _ _ _ _ Es H1 Hstep) as (o & p & Em & Ep & Hnum & Hw & Hcfg & Hbs & ->).
+  destruct (Hstag _ _ _ Es) as (Swf & _ & Snum & _).
+  destruct (Hmain _ _ Em) as (_ & _ & _ & Onum).
+  rewrite vprev_correct in Ep by assumption.
+  assert (E1 : (vn_number (s_head s) =? 1) = false) by lia. rewrite E1 in Ep.
+  injection Ep as <-. cbn [vn_number] in Hnum. unfold vnumok in Swf.
+  assert (Hlen : List.length (s_versions s) = List.length (o_versions o)) by lia.
+  assert (Hh : s_head s = mkV (vn_number (o_head o) + 1) (vn_width (o_head o))).
+  { destruct (s_head s) as [n w]. cbn [vn_number vn_width] in *. f_equal; lia. }
   exists o. split; [exact Em|]. getsimp. repeat split.
-  - rewrite bytes_eqb_refl, Fv, Fh. reflexivity.
+  - rewrite bytes_eqb_refl, Hh, Hcfg. reflexivity.
+  - exact Hlen.
+  - rewrite base_same_app_l in Hbs by lia. exact Hbs.
   - intros id' Hne. getsimp. apply bytes_eqb_false in Hne. rewrite Hne. reflexivity.
   - rewrite skey_eqb_refl. reflexivity.
   - intros c' id' Hne. getsimp. apply skey_eqb_false in Hne. rewrite Hne. reflexivity.
 Qed.
 
-Lemma lineage_known_exact dbg st c id s o st' :
+(** in a state reached without repeated metadata: exact statement, with lineage and width *)
+Lemma commit_appends_exactly_next dbg st c id m s st' :
+  mc_inv st -> sget st c id = Some s -> vn_number (s_head s) <> 1 ->
+  step dbg st c (Commit id m) = (st', Ok tt) ->
+  exists o, mget st id = Some o /\
+    mget st' id = Some (mkObj (o_lineage o) (mkV (vn_number (o_head o) + 1) (vn_width (o_head o)))
+                              (o_versions o ++ [(m, s_state s)]) (o_cfg o)) /\
+    (forall id', id' <> id -> mget st' id' = mget st id') /\
+    sget st' c id = None /\
+    (forall c' id', (c', id') <> (c, id) -> sget st' c' id' = sget st c' id') /\
+    mc_next st' = mc_next st.
+Proof.
+  intros Hinv Es H1 Hstep.
+  destruct (commit_ver_unfold _ _ _ _ _ _ _ Es H1 Hstep) as (o & p & Em & Ep & Hnum & Hw & Hcfg & Hbs & ->).
+  destruct (commit_ver_facts _ _ _ _ _ _ _ _ Hinv Es H1 Em Ep Hnum Hbs) as (Fb & Fv & Fh & Fs).
+  exists o. split; [exact Em|]. getsimp. repeat split.
+  - rewrite bytes_eqb_refl, Fv, Fh, Hcfg. reflexivity.
+  - intros id' Hne. getsimp. apply bytes_eqb_false in Hne. rewrite Hne. reflexivity.
+  - rewrite skey_eqb_refl. reflexivity.
+  - intros c' id' Hne. getsimp. apply skey_eqb_false in Hne. rewrite Hne. reflexivity.
+Qed.
+
+Lemma lineage_known_exact dbg st c id m s o st' :
   mc_inv st -> sget st c id = Some s -> vn_number (s_head s) <> 1 -> mget st id = Some o ->
-  c14_recreated_lineage st c id = false -> step dbg st c (Commit id) = (st', Ok tt) ->
+  step dbg st c (Commit id m) = (st', Ok tt) ->
   s_base s = Some (o_lineage o) /\ s_versions s = o_versions o /\
   s_state s = apply_edits (s_edits s) (last_state (o_versions o)).
 Proof.
-  intros Hinv Es H1 Em Hk Hstep.
-  destruct (commit_ver_unfold _ _ _ _ _ _ Es H1 Hstep) as (o' & p & Em' & Ep & Hnum & _).
+  intros Hinv Es H1 Em Hstep.
+  destruct (commit_ver_unfold _ _ _ _ _ _ _ Es H1 Hstep) as (o' & p & Em' & Ep & Hnum & _ & _ & Hbs & _).
   rewrite Em in Em'. injection Em' as <-.
-  destruct (commit_ver_facts _ _ _ _ _ _ _ Hinv Es H1 Em Ep Hnum Hk) as (Fb & Fv & Fh & Fs).
+  destruct (commit_ver_facts _ _ _ _ _ _ _ _ Hinv Es H1 Em Ep Hnum Hbs) as (Fb & Fv & Fh & Fs).
   repeat split; assumption.
 Qed.
 
 (** the main repository's head is not the staged head - 1 (or the object is gone): refused,
     nothing changes - neither the repository nor the client's staged changes *)
-Lemma stale_commit_refused_unchanged dbg st c id s :
+Lemma stale_commit_refused_unchanged dbg st c id m s :
   sget st c id = Some s -> vnumok (s_head s) = true -> vn_number (s_head s) <> 1 ->
   (forall o, mget st id = Some o -> vn_number (o_head o) + 1 <> vn_number (s_head s)) ->
-  step dbg st c (Commit id) = (st, Err).
+  step dbg st c (Commit id m) = (st, Err).
 Proof.
   intros Es Hwf H1 Hm. cbn [step]. rewrite Es.
   assert (E1 : (vn_number (s_head s) =? 1) = false) by lia. rewrite E1.
@@ -556,19 +876,64 @@ Proof.
   replace (vn_number (o_head o) =? vn_number (s_head s) - 1) with false by lia. reflexivity.
 Qed.
 
+(** some version of the object differs - in metadata or in state - from the staged copy's:
+    refused, nothing changes (fix e1679ed) *)
+Lemma foreign_base_refused dbg st c id m s o :
+  sget st c id = Some s -> vnumok (s_head s) = true -> vn_number (s_head s) <> 1 ->
+  mget st id = Some o -> base_same (o_versions o) (s_versions s ++ [(m, s_state s)]) = false ->
+  step dbg st c (Commit id m) = (st, Err).
+Proof.
+  intros Es Hwf H1 Em Hbs. cbn [step]. rewrite Es.
+  assert (E1 : (vn_number (s_head s) =? 1) = false) by lia. rewrite E1, Em.
+  rewrite vprev_correct by assumption. rewrite E1, Hbs.
+  destruct (vn_number (o_head o) =? vn_number (mkV (vn_number (s_head s) - 1) (vn_width (s_head s)))); [|reflexivity].
+  destruct ((vn_width (o_head o) =? vn_width (s_head s)) && (o_cfg o =? s_cfg s)); reflexivity.
+Qed.
+
+(** the object has another padding width, digest algorithm or content directory than the staged
+    copy: refused, nothing changes (fix 5c18ef1) *)
+Lemma foreign_config_refused dbg st c id m s o :
+  sget st c id = Some s -> vnumok (s_head s) = true -> vn_number (s_head s) <> 1 ->
+  mget st id = Some o -> (vn_width (o_head o) <> vn_width (s_head s) \/ o_cfg o <> s_cfg s) ->
+  step dbg st c (Commit id m) = (st, Err).
+Proof.
+  intros Es Hwf H1 Em Hd. cbn [step]. rewrite Es.
+  assert (E1 : (vn_number (s_head s) =? 1) = false) by lia. rewrite E1, Em.
+  rewrite vprev_correct by assumption. rewrite E1.
+  destruct (vn_number (o_head o) =? vn_number (mkV (vn_number (s_head s) - 1) (vn_width (s_head s)))); [|reflexivity].
+  replace ((vn_width (o_head o) =? vn_width (s_head s)) && (o_cfg o =? s_cfg s)) with false by lia.
+  reflexivity.
+Qed.
+
+(** the formerly known class: a staged copy cloned from another lineage of the id (the object
+    was purged and created again) is refused whatever the head numbers are *)
+Lemma recreated_lineage_refused dbg st c id m s o l :
+  mc_inv st -> sget st c id = Some s -> s_base s = Some l -> mget st id = Some o ->
+  l <> o_lineage o -> step dbg st c (Commit id m) = (st, Err).
+Proof.
+  intros Hinv Es Eb Em Hl. pose proof Hinv as (Hmain & Hstag & _).
+  destruct (Hstag _ _ _ Es) as (Swf & _ & Snum & _ & Sbase). rewrite Eb in Sbase.
+  destruct Sbase as (_ & Hne & _).
+  assert (H1 : vn_number (s_head s) <> 1).
+  { destruct (s_versions s); [congruence|]. cbn [List.length] in Snum. lia. }
+  apply foreign_base_refused with (s := s) (o := o); try assumption.
+  destruct (base_same (o_versions o) (s_versions s ++ [(m, s_state s)])) eqn:Hbs; [|reflexivity].
+  pose proof (base_same_lineage _ _ _ _ _ _ Hinv Es Em H1 Hbs) as Eb'. congruence.
+Qed.
+
 Lemma new_object_refused_if_exists dbg st c id o :
   mget st id = Some o ->
-  (forall w, step dbg st c (New id w) = (st, Err)) /\
-  (forall s, sget st c id = Some s -> vn_number (s_head s) = 1 -> step dbg st c (Commit id) = (st, Err)).
+  (forall w k, step dbg st c (New id w k) = (st, Err)) /\
+  (forall m s, sget st c id = Some s -> vn_number (s_head s) = 1 -> step dbg st c (Commit id m) = (st, Err)).
 Proof.
   intros Em. split.
-  - intros w. cbn [step]. rewrite Em. reflexivity.
-  - intros s Es H1. cbn [step]. rewrite Es.
+  - intros w k. cbn [step]. rewrite Em. reflexivity.
+  - intros m s Es H1. cbn [step]. rewrite Es.
     replace (vn_number (s_head s) =? 1) with true by lia. rewrite Em. reflexivity.
 Qed.
 
 Lemma versions_append_only dbg es st id o o1 :
-  mc_inv st -> run_clean dbg st es = true ->
+  mc_inv st -> run_fresh dbg st es = true ->
   mget st id = Some o -> mget (run dbg st es) id = Some o1 ->
   (o_lineage o1 = o_lineage o -> extends_obj o o1) /\
   (o_lineage o1 <> o_lineage o -> mc_next st <= o_lineage o1).
@@ -582,7 +947,7 @@ Proof.
 Qed.
 
 Lemma stage_refused_at_width_max dbg st c id o e :
-  mc_inv st -> sget st c id = None -> mget st id = Some o ->
+  mc_wf st -> sget st c id = None -> mget st id = Some o ->
   max_for_width (vn_width (o_head o)) < vn_number (o_head o) + 1 ->
   step dbg st c (Stage id e) = (st, Err).
 Proof.
@@ -591,9 +956,9 @@ Proof.
 Qed.
 
 (** no operation ever panics in a reachable state (in particular not [next], at any width) *)
-Lemma step_never_panics dbg st c o : mc_inv st -> snd (step dbg st c o) <> Panic.
+Lemma step_never_panics dbg st c o : mc_wf st -> snd (step dbg st c o) <> Panic.
 Proof.
-  intros [Hmain Hstag]. destruct o as [id w|id e|id|id|id]; cbn [step].
+  intros [Hmain Hstag]. destruct o as [id w k|id e|id m|id|id]; cbn [step].
   - destruct (mget st id); [discriminate|]. destruct (sget st c id); discriminate.
   - destruct (sget st c id) as [s|]; [discriminate|].
     destruct (mget st id) as [o|] eqn:Em; [|discriminate].
@@ -606,7 +971,10 @@ Proof.
     + destruct (mget st id); discriminate.
     + destruct (mget st id) as [o|]; [|discriminate].
       rewrite vprev_correct by assumption. rewrite E1.
-      destruct (vn_number (o_head o) =? vn_number (mkV (vn_number (s_head s) - 1) (vn_width (s_head s)))); discriminate.
+      destruct (vn_number (o_head o) =? vn_number (mkV (vn_number (s_head s) - 1) (vn_width (s_head s))));
+        [|discriminate].
+      destruct ((vn_width (o_head o) =? vn_width (s_head s)) && (o_cfg o =? s_cfg s)); [|discriminate].
+      destruct (base_same (o_versions o) (s_versions s ++ [(m, s_state s)])); discriminate.
   - discriminate.
   - discriminate.
 Qed.
@@ -617,34 +985,30 @@ Definition stale (st : mc) (c : N) (id : bytes) : Prop :=
     (vn_number (s_head s) = 1 \/ s_base s <> Some (o_lineage o) \/
      vn_number (s_head s) <= vn_number (o_head o)).
 
-Lemma stale_commit_err dbg st c id :
-  mc_inv st -> stale st c id -> c14_recreated_lineage st c id = false ->
-  step dbg st c (Commit id) = (st, Err).
+Lemma stale_commit_err dbg st c id m :
+  mc_inv st -> stale st c id -> step dbg st c (Commit id m) = (st, Err).
 Proof.
-  intros [Hmain Hstag] (s & o & Es & Em & Hd) Hk.
-  destruct (Hstag _ _ _ Es) as (Swf & _).
+  intros Hinv (s & o & Es & Em & Hd). pose proof Hinv as (Hmain & Hstag & _).
+  destruct (Hstag _ _ _ Es) as (Swf & _ & Snum & _ & Sbase).
   destruct (N.eq_dec (vn_number (s_head s)) 1) as [H1|H1].
   - destruct (new_object_refused_if_exists dbg st c id o Em) as [_ Hc]. apply Hc with (s := s); assumption.
-  - apply stale_commit_refused_unchanged with (s := s); try assumption.
-    intros o' Em'. rewrite Em in Em'. injection Em' as <-.
-    destruct Hd as [Hd|[Hd|Hd]]; [contradiction| |lia].
-    unfold c14_recreated_lineage in Hk. rewrite Es, Em in Hk.
-    assert (E1 : (vn_number (s_head s) =? 1) = false) by lia. rewrite E1 in Hk. cbn [negb andb] in Hk.
-    destruct (s_base s) as [l|] eqn:Eb.
-    + assert (Hl : l <> o_lineage o) by (intros ->; apply Hd; reflexivity).
-      replace (l =? o_lineage o) with false in Hk by lia. cbn [negb andb] in Hk. lia.
-    + cbn [andb] in Hk. lia.
+  - destruct Hd as [Hd|[Hd|Hd]]; [contradiction| |].
+    + destruct (s_base s) as [l|] eqn:Eb.
+      * apply recreated_lineage_refused with (s := s) (o := o) (l := l); try assumption.
+        intros ->. apply Hd. reflexivity.
+      * rewrite Sbase in Snum. cbn [List.length] in Snum. lia.
+    + apply stale_commit_refused_unchanged with (s := s); try assumption.
+      intros o' Em'. rewrite Em in Em'. injection Em' as <-. lia.
 Qed.
 
-Lemma commit_makes_stale dbg st a c id sc st1 :
+Lemma commit_makes_stale dbg st a c id m sc st1 :
   mc_inv st -> a <> c -> sget st c id = Some sc ->
-  step_clean st a (Commit id) = true -> step dbg st a (Commit id) = (st1, Ok tt) ->
-  stale st1 c id.
+  step dbg st a (Commit id m) = (st1, Ok tt) -> stale st1 c id.
 Proof.
-  intros Hinv Hac Esc Hclean Hstep. pose proof Hinv as [Hmain Hstag].
+  intros Hinv Hac Esc Hstep. pose proof Hinv as (Hmain & Hstag & _).
   destruct (Hstag _ _ _ Esc) as (_ & _ & Cnum & _ & Cbase).
   assert (Hne : skey_eqb (c, id) (a, id) = false) by (apply skey_eqb_false; intros [= ->]; apply Hac; reflexivity).
-  pose proof Hclean as Hkn. unfold step_clean in Hkn. apply negb_true_iff in Hkn. cbn [step_known] in Hkn.
+  pose proof Hstep as Hstep0.
   cbn [step] in Hstep. destruct (sget st a id) as [s|] eqn:Es; [|discriminate].
   destruct (vn_number (s_head s) =? 1) eqn:E1.
   - destruct (mget st id) as [o|] eqn:Em; [discriminate|]. injection Hstep as <-.
@@ -653,10 +1017,8 @@ Proof.
     + right. left. destruct Cbase as (Hl & _). intros [= ->]. lia.
     + left. rewrite Cbase in Cnum. cbn [List.length] in Cnum. lia.
   - assert (H1 : vn_number (s_head s) <> 1) by lia.
-    assert (Hstep' : step dbg st a (Commit id) = (st1, Ok tt)).
-    { cbn [step]. rewrite Es, E1. exact Hstep. }
-    destruct (commit_ver_unfold _ _ _ _ _ _ Es H1 Hstep') as (o & p & Em & Ep & Hnum & ->).
-    destruct (commit_ver_facts _ _ _ _ _ _ _ Hinv Es H1 Em Ep Hnum Hkn) as (Fb & Fv & Fh & Fs).
+    destruct (commit_ver_unfold _ _ _ _ _ _ _ Es H1 Hstep0) as (o & p & Em & Ep & Hnum & _ & _ & Hbs & ->).
+    destruct (commit_ver_facts _ _ _ _ _ _ _ _ Hinv Es H1 Em Ep Hnum Hbs) as (Fb & Fv & Fh & Fs).
     destruct (Hmain _ _ Em) as (_ & _ & _ & Onum).
     exists sc. eexists. getsimp. rewrite Hne, bytes_eqb_refl. split; [exact Esc|]. split; [reflexivity|].
     cbn [o_lineage o_head]. destruct (s_base sc) as [l|] eqn:Eb.
@@ -671,24 +1033,23 @@ Lemma ev_keeps_key c id c' o :
   ev_keeps c id (c', o) = true ->
   match o with
   | Purge i => i <> id
-  | ResetAll i | Commit i => ~ (c' = c /\ i = id)
+  | ResetAll i | Commit i _ => ~ (c' = c /\ i = id)
   | _ => True
   end.
 Proof.
-  unfold ev_keeps. cbn [fst snd]. destruct o as [i w|i e|i|i|i]; try (intros _; exact I); intros H.
+  unfold ev_keeps. cbn [fst snd]. destruct o as [i w k|i e|i m|i|i]; try (intros _; exact I); intros H.
   - intros [-> ->]. rewrite N.eqb_refl, bytes_eqb_refl in H. discriminate.
   - intros [-> ->]. rewrite N.eqb_refl, bytes_eqb_refl in H. discriminate.
   - intros ->. rewrite bytes_eqb_refl in H. discriminate.
 Qed.
 
 Lemma stale_step dbg st c id c' o st' r :
-  mc_inv st -> stale st c id -> step_clean st c' o = true -> ev_keeps c id (c', o) = true ->
+  mc_inv st -> stale st c id -> ev_keeps c id (c', o) = true ->
   step_rel dbg st c' o st' r -> stale st' c id.
 Proof.
-  intros Hinv (s & ob & Es & Em & Hd) Hclean Hkeep Hstep.
+  intros Hinv (s & ob & Es & Em & Hd) Hkeep Hstep.
   apply ev_keeps_key in Hkeep.
-  pose proof Hclean as Hkn. unfold step_clean in Hkn. apply negb_true_iff in Hkn.
-  destruct Hstep as [o r Hr|i w Em' Es'|i e s' Es'|i e ob' h Es' Em' En|i s' Es' H1 Em'|i s' ob' p Es' H1 Em' Ep Hnum|i|i].
+  destruct Hstep as [o r Hr|i w k Em' Es'|i e s' Es'|i e ob' h Es' Em' En|i m s' Es' H1 Em'|i m s' ob' p Es' H1 Em' Ep Hnum Hw Hcfg Hbs|i|i].
   - exists s, ob. auto.
   - exists s, ob. getsimp.
     destruct (skey_case c' i c id) as [(E & -> & ->)|(E & Hne)]; [congruence|]. rewrite E. auto.
@@ -703,8 +1064,7 @@ Proof.
     destruct (skey_case c' i c id) as [(E' & -> & ->)|(E' & Hne')]; [contradiction|]. rewrite E'. auto.
   - destruct (bytes_case i id) as [(E & ->)|(E & Hne)].
     + rewrite Em in Em'. injection Em' as <-.
-      cbn [step_known] in Hkn.
-      destruct (commit_ver_facts _ _ _ _ _ _ _ Hinv Es' H1 Em Ep Hnum Hkn) as (Fb & Fv & Fh & Fs).
+      destruct (commit_ver_facts _ _ _ _ _ _ _ _ Hinv Es' H1 Em Ep Hnum Hbs) as (Fb & Fv & Fh & Fs).
       exists s. eexists. getsimp. rewrite E.
       destruct (skey_case c' i c i) as [(E' & -> & _)|(E' & Hne')]; [exfalso; apply Hkeep; auto|].
       rewrite E'. split; [exact Es|]. split; [reflexivity|]. cbn [o_lineage o_head].
@@ -719,84 +1079,90 @@ Proof.
 Qed.
 
 Lemma stale_run dbg c id es : forall st,
-  mc_inv st -> stale st c id -> run_clean dbg st es = true -> forallb (ev_keeps c id) es = true ->
+  mc_inv st -> stale st c id -> run_fresh dbg st es = true -> forallb (ev_keeps c id) es = true ->
   stale (run dbg st es) c id.
 Proof.
-  induction es as [|[c' o] r IH]; intros st Hinv Hs Hc Hk; cbn [run run_clean forallb] in *.
+  induction es as [|[c' o] r IH]; intros st Hinv Hs Hc Hk; cbn [run run_fresh forallb] in *.
   - exact Hs.
   - apply andb_true_iff in Hc. destruct Hc as [Hc1 Hc2].
     apply andb_true_iff in Hk. destruct Hk as [Hk1 Hk2].
     apply IH; [apply step_inv; assumption| |exact Hc2|exact Hk2].
-    eapply stale_step; [exact Hinv|exact Hs|exact Hc1|exact Hk1|apply step_sound].
+    eapply stale_step; [exact Hinv|exact Hs|exact Hk1|apply step_sound].
 Qed.
 
-Lemma no_silent_merge dbg st a c id sc st1 es :
+Lemma no_silent_merge dbg st a c id m sc st1 es m' :
   mc_inv st -> a <> c -> sget st c id = Some sc ->
-  step_clean st a (Commit id) = true -> step dbg st a (Commit id) = (st1, Ok tt) ->
-  run_clean dbg st1 es = true -> forallb (ev_keeps c id) es = true ->
-  c14_recreated_lineage (run dbg st1 es) c id = false ->
-  step dbg (run dbg st1 es) c (Commit id) = (run dbg st1 es, Err).
+  step_fresh st a (Commit id m) = true -> step dbg st a (Commit id m) = (st1, Ok tt) ->
+  run_fresh dbg st1 es = true -> forallb (ev_keeps c id) es = true ->
+  step dbg (run dbg st1 es) c (Commit id m') = (run dbg st1 es, Err).
 Proof.
-  intros Hinv Hac Esc Hclean Hstep Hrc Hkeep Hk.
+  intros Hinv Hac Esc Hfresh Hstep Hrc Hkeep.
   assert (Hinv1 : mc_inv st1).
-  { pose proof (step_inv dbg st a (Commit id) Hinv Hclean) as H. rewrite Hstep in H. exact H. }
-  apply stale_commit_err; [apply run_inv; assumption| |exact Hk].
+  { pose proof (step_inv dbg st a (Commit id m) Hinv Hfresh) as H. rewrite Hstep in H. exact H. }
+  apply stale_commit_err; [apply run_inv; assumption|].
   apply stale_run; try assumption.
-  exact (commit_makes_stale dbg st a c id sc st1 Hinv Hac Esc Hclean Hstep).
+  exact (commit_makes_stale dbg st a c id m sc st1 Hinv Hac Esc Hstep).
 Qed.
 
-(** * The known class is a genuine defect of the modelled code: witness *)
+(** * Concrete interleavings: the repaired classes and non-vacuity *)
 
-(** A (client 0): new, cp, commit, cp, commit, cp (staged v3 of lineage 0);
-    B (client 1): purge, new, cp, commit, cp, commit (lineage 1 at v2);
-    A: commit - succeeds and replaces B's two versions by A's three. *)
 Definition wit_id : bytes := b "o".
-Definition wit_run : list event :=
-  [ (0, New wit_id 0); (0, Stage wit_id (b "a.txt", Some 1)); (0, Commit wit_id);
-    (0, Stage wit_id (b "b.txt", Some 2)); (0, Commit wit_id);
-    (0, Stage wit_id (b "c.txt", Some 3));
-    (1, Purge wit_id); (1, New wit_id 0); (1, Stage wit_id (b "d.txt", Some 4)); (1, Commit wit_id);
-    (1, Stage wit_id (b "e.txt", Some 5)); (1, Commit wit_id) ].
+(** A (client 0) creates the object with two versions and stages a third *)
+Definition wit_base : list event :=
+  [ (0, New wit_id 0 0); (0, Stage wit_id (b "a.txt", Some 1)); (0, Commit wit_id 1);
+    (0, Stage wit_id (b "b.txt", Some 2)); (0, Commit wit_id 2);
+    (0, Stage wit_id (b "c.txt", Some 3)) ].
+(** B (client 1) purges the object and creates it again with the same files: padding width [w],
+    configuration [k], metadata [m1], [m2] *)
+Definition wit_recreate (w k m1 m2 : N) : list event :=
+  [ (1, Purge wit_id); (1, New wit_id w k); (1, Stage wit_id (b "a.txt", Some 1)); (1, Commit wit_id m1);
+    (1, Stage wit_id (b "b.txt", Some 2)); (1, Commit wit_id m2) ].
 
-Lemma recreated_lineage_refuted :
-  exists es c id,
-    run_clean true mc_init es = true /\
-    c14_recreated_lineage (run true mc_init es) c id = true /\
-    snd (step true (run true mc_init es) c (Commit id)) = Ok tt /\
-    exists o o1, mget (run true mc_init es) id = Some o /\
-      mget (fst (step true (run true mc_init es) c (Commit id))) id = Some o1 /\
-      o_lineage o1 = o_lineage o /\ ~ extends (o_versions o) (o_versions o1).
+(** the formerly known class recreated-lineage (fix e1679ed): same states, head numbers match,
+    metadata of the re-created versions fresh - A's commit is refused, nothing changes *)
+Lemma recreated_lineage_now_refused :
+  let es := wit_base ++ wit_recreate 0 0 3 4 in
+  run_fresh true mc_init es = true /\
+  step true (run true mc_init es) 0 (Commit wit_id 5) = (run true mc_init es, Err).
+Proof. cbv zeta. split; vm_compute; reflexivity. Qed.
+
+(** identical metadata AND states on the re-created lineage: accepted - the two histories are
+    indistinguishable, the object's earlier versions are what they were *)
+Lemma recreated_same_history_accepted :
+  let st := run true mc_init (wit_base ++ wit_recreate 0 0 1 2) in
+  run_fresh true mc_init (wit_base ++ wit_recreate 0 0 1 2) = false /\
+  snd (step true st 0 (Commit wit_id 5)) = Ok tt /\
+  exists o o1, mget st wit_id = Some o /\ mget (fst (step true st 0 (Commit wit_id 5))) wit_id = Some o1 /\
+    o_versions o1 = o_versions o ++ [(5, [(b "c.txt", 3); (b "b.txt", 2); (b "a.txt", 1)])] /\
+    o_head o1 = mkV 3 0 /\ o_cfg o1 = o_cfg o.
 Proof.
-  exists wit_run, 0, wit_id.
-  split; [vm_compute; reflexivity|]. split; [vm_compute; reflexivity|]. split; [vm_compute; reflexivity|].
+  cbv zeta. split; [vm_compute; reflexivity|]. split; [vm_compute; reflexivity|].
   eexists. eexists. split; [vm_compute; reflexivity|]. split; [vm_compute; reflexivity|].
-  split; [reflexivity|]. intros [tl H]. vm_compute in H. discriminate H.
+  split; [vm_compute; reflexivity|]. split; vm_compute; reflexivity.
 Qed.
 
-(** outside the class the same schedule is refused: with the re-created object still at v1
-    A's staged v3 does not fit *)
-Lemma recreated_lineage_boundary :
-  let es := firstn 10 wit_run in
-  c14_recreated_lineage (run true mc_init es) 0 wit_id = false /\
-  step true (run true mc_init es) 0 (Commit wit_id) = (run true mc_init es, Err).
-Proof. split; vm_compute; reflexivity. Qed.
-
-(** * Non-vacuity *)
+(** ... but not with another padding width, digest algorithm or content directory (fix 5c18ef1) *)
+Lemma recreated_same_history_other_config_refused :
+  (let st := run true mc_init (wit_base ++ wit_recreate 2 0 1 2) in
+   step true st 0 (Commit wit_id 5) = (st, Err)) /\
+  (let st := run true mc_init (wit_base ++ wit_recreate 0 1 1 2) in
+   step true st 0 (Commit wit_id 5) = (st, Err)).
+Proof. cbv zeta. split; vm_compute; reflexivity. Qed.
 
 (** two clients clone v1, both stage a change, both commit: in either order exactly the first wins *)
 Definition race_prefix : list event :=
-  [ (0, New wit_id 0); (0, Stage wit_id (b "a.txt", Some 1)); (0, Commit wit_id);
+  [ (0, New wit_id 0 0); (0, Stage wit_id (b "a.txt", Some 1)); (0, Commit wit_id 1);
     (0, Stage wit_id (b "x.txt", Some 2)); (1, Stage wit_id (b "y.txt", Some 3)) ].
 
 Lemma race_exactly_one_wins :
   let st := run true mc_init race_prefix in
-  run_clean true mc_init (race_prefix ++ [(0, Commit wit_id); (1, Commit wit_id)]) = true /\
-  run_clean true mc_init (race_prefix ++ [(1, Commit wit_id); (0, Commit wit_id)]) = true /\
-  run_results true st [(0, Commit wit_id); (1, Commit wit_id)] = [Ok tt; Err] /\
-  run_results true st [(1, Commit wit_id); (0, Commit wit_id)] = [Ok tt; Err] /\
-  (exists o, mget (run true st [(0, Commit wit_id); (1, Commit wit_id)]) wit_id = Some o /\
+  run_fresh true mc_init (race_prefix ++ [(0, Commit wit_id 2); (1, Commit wit_id 3)]) = true /\
+  run_fresh true mc_init (race_prefix ++ [(1, Commit wit_id 2); (0, Commit wit_id 3)]) = true /\
+  run_results true st [(0, Commit wit_id 2); (1, Commit wit_id 3)] = [Ok tt; Err] /\
+  run_results true st [(1, Commit wit_id 2); (0, Commit wit_id 3)] = [Ok tt; Err] /\
+  (exists o, mget (run true st [(0, Commit wit_id 2); (1, Commit wit_id 3)]) wit_id = Some o /\
              vn_number (o_head o) = 2 /\ List.length (o_versions o) = 2%nat) /\
-  (exists s, sget (run true st [(0, Commit wit_id); (1, Commit wit_id)]) 1 wit_id = Some s /\
+  (exists s, sget (run true st [(0, Commit wit_id 2); (1, Commit wit_id 3)]) 1 wit_id = Some s /\
              s_state s = [(b "y.txt", 3); (b "a.txt", 1)]).
 Proof.
   cbv zeta.
@@ -811,13 +1177,13 @@ Qed.
 Fixpoint n_versions (k : nat) : list event :=
   match k with
   | O => []
-  | S k' => n_versions k' ++ [(0, Stage wit_id (b "f.txt", Some (N.of_nat k))); (0, Commit wit_id)]
+  | S k' => n_versions k' ++ [(0, Stage wit_id (b "f.txt", Some (N.of_nat k))); (0, Commit wit_id (N.of_nat k))]
   end.
-Definition width2_run : list event := (0, New wit_id 2) :: n_versions 9.
+Definition width2_run : list event := (0, New wit_id 2 0) :: n_versions 9.
 
 Lemma width2_refuses_v10 :
   let st := run true mc_init width2_run in
-  run_clean true mc_init width2_run = true /\
+  run_fresh true mc_init width2_run = true /\
   (exists o, mget st wit_id = Some o /\ o_head o = mkV 9 2 /\ List.length (o_versions o) = 9%nat) /\
   step true st 1 (Stage wit_id (b "g.txt", Some 77)) = (st, Err) /\
   step false st 1 (Stage wit_id (b "g.txt", Some 77)) = (st, Err).
@@ -832,8 +1198,8 @@ Qed.
 Lemma commit_nonvacuous :
   let st := run true mc_init race_prefix in
   mc_inv st /\ (exists s, sget st 1 wit_id = Some s /\ vn_number (s_head s) <> 1) /\
-  c14_recreated_lineage st 1 wit_id = false /\
-  snd (step true st 1 (Commit wit_id)) = Ok tt.
+  step_fresh st 1 (Commit wit_id 9) = true /\
+  snd (step true st 1 (Commit wit_id 9)) = Ok tt.
 Proof.
   cbv zeta.
   split; [apply reachable_inv; vm_compute; reflexivity|].
